@@ -1,6 +1,7 @@
 package checks
 
 import (
+	"github.com/olric-data/olric/internal/verif/clustermc"
 	"fmt"
 
 	"github.com/olric-data/olric/internal/verif/core"
@@ -193,5 +194,26 @@ func init() {
 		c.Cov["traces_validated_against_impl"] = trans
 		c.Cov["rule"] = "fixpoint search on the real KVStore: a state is a post-compaction layout in canonical form; a transition is a burst of 1..burst operations from {Put or PutRaw (k,size), Delete(k)} followed by Compaction() until done; accounting is checked after every burst, the bounds (garbage below threshold on every live table, tables <= live keys + 2, recycled tables released with a zero idle timeout) on every post-compaction state; the search ends when no burst leads to a new state"
 		c.Assumef("values are abstracted to two sizes and keys to %d; the canonical form keeps table layout, gaps in numbering and per-key version order (see kvmc.Canon)", keys)
+		// cluster level: the compaction WORKER (which fragments it visits on which member) on a
+		// replicated cluster; the storage-level numbers above are kept, the BFS adds its own
+		keep := map[string]interface{}{}
+		for _, k := range []string{"states", "transitions", "evaluations", "distinct_nontrivial", "exhaustive", "bounds_completed", "traces_validated_against_impl"} {
+			keep[k] = c.Cov[k]
+		}
+		clustermc.RunFamily(c, "C20")
+		c.Cov["cluster_part"] = map[string]interface{}{
+			"what":             "BFS over {Put, Delete of three keys in two partitions with different primary owners, compaction pass = the real compaction worker body on every member for every partition} on a replicated cluster with 128-byte tables; after every compaction pass every primary and backup fragment on every member: no live table at or above the 40% garbage threshold, tables <= live keys + 2",
+			"states":           c.Cov["states"],
+			"transitions":      c.Cov["transitions"],
+			"bounds_completed": c.Cov["bounds_completed"],
+			"exhaustive":       c.Cov["exhaustive"],
+		}
+		clusterExh, _ := c.Cov["exhaustive"].(bool)
+		for k, v := range keep {
+			c.Cov[k] = v
+		}
+		if b, ok := keep["exhaustive"].(bool); ok {
+			c.Cov["exhaustive"] = b && clusterExh
+		}
 	}})
 }
